@@ -598,34 +598,54 @@ impl ValidGrammar {
     }
 }
 
-fn expr_get_head(arena: &[Expr], expr_id: ExprId) -> ExprId {
+// The leaf an expression starts (ends) with, for check_subword_spaces().  With `nonterms`, a <NONTERM>
+// that has a definition stands for that definition (definitions are acyclic at this point).
+fn expr_get_head(
+    arena: &[Expr],
+    expr_id: ExprId,
+    nonterms: Option<&UstrMap<NontermDefn>>,
+) -> ExprId {
     match &arena[expr_id] {
+        Expr::NontermRef { nonterm, .. } => match nonterms.and_then(|defs| defs.get(nonterm)) {
+            Some(defn) => expr_get_head(arena, defn.rhs_expr_id, nonterms),
+            None => expr_id,
+        },
         Expr::Terminal { .. }
-        | Expr::NontermRef { .. }
         | Expr::Command { .. }
         | Expr::Alternative { .. }
         | Expr::Fallback { .. }
         | Expr::Optional { .. }
         | Expr::Many1 { .. } => expr_id,
-        Expr::Sequence { children, .. } => expr_get_head(arena, *children.first().unwrap()),
-        Expr::Subword { root_id, .. } => expr_get_head(arena, *root_id),
+        Expr::Sequence { children, .. } => {
+            expr_get_head(arena, *children.first().unwrap(), nonterms)
+        }
+        Expr::Subword { root_id, .. } => expr_get_head(arena, *root_id, nonterms),
         Expr::DistributiveDescription { .. } => {
             unreachable!("wrong compilation phases order")
         }
     }
 }
 
-fn expr_get_tail(arena: &[Expr], expr_id: ExprId) -> ExprId {
+fn expr_get_tail(
+    arena: &[Expr],
+    expr_id: ExprId,
+    nonterms: Option<&UstrMap<NontermDefn>>,
+) -> ExprId {
     match &arena[expr_id] {
+        Expr::NontermRef { nonterm, .. } => match nonterms.and_then(|defs| defs.get(nonterm)) {
+            Some(defn) => expr_get_tail(arena, defn.rhs_expr_id, nonterms),
+            None => expr_id,
+        },
         Expr::Terminal { .. }
-        | Expr::NontermRef { .. }
         | Expr::Command { .. }
         | Expr::Alternative { .. }
         | Expr::Fallback { .. }
         | Expr::Optional { .. }
         | Expr::Many1 { .. } => expr_id,
-        Expr::Sequence { children, .. } => expr_get_tail(arena, *children.last().unwrap()),
-        Expr::Subword { root_id, .. } => expr_get_tail(arena, *root_id),
+        Expr::Sequence { children, .. } => {
+            expr_get_tail(arena, *children.last().unwrap(), nonterms)
+        }
+        Expr::Subword { root_id, .. } => expr_get_tail(arena, *root_id, nonterms),
         Expr::DistributiveDescription { .. } => {
             unreachable!("wrong compilation phases order")
         }
@@ -638,7 +658,14 @@ fn check_subword_spaces(
     nonterms: &UstrMap<NontermDefn>,
 ) -> Result<()> {
     let mut nonterm_expn_trace: Vec<HumanSpan> = Default::default();
-    do_check_subword_spaces(arena, expr_id, nonterms, &mut nonterm_expn_trace, false)
+    do_check_subword_spaces(
+        arena,
+        expr_id,
+        nonterms,
+        &mut nonterm_expn_trace,
+        false,
+        false,
+    )
 }
 
 // Disallows spaces in subword expressions, e.g.
@@ -653,6 +680,10 @@ fn do_check_subword_spaces(
     nonterms: &UstrMap<NontermDefn>,
     nonterm_expn_trace: &mut Vec<HumanSpan>,
     within_subword: bool,
+    // `expr_id` is the root of a word: if it is a sequence, its items are juxtaposed, not separated
+    // by spaces.  (Any other sequence inside a word comes from a parenthesized or referenced
+    // space-separated expression.)
+    juxtaposition: bool,
 ) -> Result<()> {
     match &arena[expr_id] {
         Expr::Sequence { children, .. } if within_subword => {
@@ -663,13 +694,16 @@ fn do_check_subword_spaces(
                     nonterms,
                     nonterm_expn_trace,
                     within_subword,
+                    false,
                 )?;
             }
-            // Error out on two adjacent Expr::Terminal()s
+            // Error out on two adjacent Expr::Terminal()s.  Space-separated items may start/end with
+            // a literal through a <NONTERM>; juxtaposed ones (`--opt=<VALUE>`) legitimately do.
+            let follow = if juxtaposition { None } else { Some(nonterms) };
             for pair in children.windows(2) {
                 let [left, right] = pair else { unreachable!() };
-                let left_tail = expr_get_tail(arena, *left);
-                let right_head = expr_get_head(arena, *right);
+                let left_tail = expr_get_tail(arena, *left, follow);
+                let right_head = expr_get_head(arena, *right, follow);
                 if let (
                     Expr::Terminal {
                         span: left_span, ..
@@ -696,6 +730,7 @@ fn do_check_subword_spaces(
                     nonterms,
                     nonterm_expn_trace,
                     within_subword,
+                    false,
                 )?;
             }
             Ok(())
@@ -712,13 +747,14 @@ fn do_check_subword_spaces(
                 nonterms,
                 nonterm_expn_trace,
                 within_subword,
+                false,
             )?;
             nonterm_expn_trace.pop();
             Ok(())
         }
         Expr::Command { .. } => Ok(()),
         Expr::Subword { root_id: child, .. } => {
-            do_check_subword_spaces(arena, *child, nonterms, nonterm_expn_trace, true)
+            do_check_subword_spaces(arena, *child, nonterms, nonterm_expn_trace, true, true)
         }
         Expr::Alternative { children, .. } => {
             for child in children {
@@ -728,6 +764,7 @@ fn do_check_subword_spaces(
                     nonterms,
                     nonterm_expn_trace,
                     within_subword,
+                    false,
                 )?;
             }
             Ok(())
@@ -740,16 +777,27 @@ fn do_check_subword_spaces(
                     nonterms,
                     nonterm_expn_trace,
                     within_subword,
+                    false,
                 )?;
             }
             Ok(())
         }
-        Expr::Optional { child, .. } => {
-            do_check_subword_spaces(arena, *child, nonterms, nonterm_expn_trace, within_subword)
-        }
-        Expr::Many1 { child, .. } => {
-            do_check_subword_spaces(arena, *child, nonterms, nonterm_expn_trace, within_subword)
-        }
+        Expr::Optional { child, .. } => do_check_subword_spaces(
+            arena,
+            *child,
+            nonterms,
+            nonterm_expn_trace,
+            within_subword,
+            false,
+        ),
+        Expr::Many1 { child, .. } => do_check_subword_spaces(
+            arena,
+            *child,
+            nonterms,
+            nonterm_expn_trace,
+            within_subword,
+            false,
+        ),
         Expr::DistributiveDescription { .. } => {
             unreachable!("wrong compilation phases order")
         }
